@@ -70,7 +70,7 @@ def build_items(t):
     items = [("leaf", to_json(e), "all") for e in L]
     items += [(k, to_json(e), "all") for k, e in L2]
     if t == "quick":
-        stride = 40
+        stride = 12
         items += [(k, to_json(e), "two") for k, e in level3(L, L2, stride=stride, offset=seed())]
     else:
         items += [(k, to_json(e), "two") for k, e in level3(L, L2, stride=2, offset=seed())]
@@ -116,7 +116,7 @@ def run() -> int:
         "input and output Expression -> z3 polynomial terms over free positive distributions (vf/sem/freedist.py)",
     ]
     rep.bounds = {
-        "expressions": "raw-constructor trees of depth <=3 over names A,B,C (+ intervention X, population tag pi1): 27 leaves (joint, conditional, value-marked, interventional, population-tagged, One, Zero), all products/fractions of two leaves, all sums over 1-2 names; depth 3 = op(depth-2 tree, leaf) in both positions, 3-factor products, sums (quick: every 40th, thorough: every 2nd)",
+        "expressions": "raw-constructor trees of depth <=3 over names A,B,C (+ intervention X, population tag pi1): 27 leaves (joint, conditional, value-marked, interventional, population-tagged, One, Zero), all products/fractions of two leaves, all sums over 1-2 names; depth 3 = op(depth-2 tree, leaf) in both positions, 3-factor products, sums (quick: every 12th, thorough: every 2nd)",
         "multiplicity": "fractions whose numerator and denominator share a factor with different multiplicities (5 kinds of factors; raw and operator-built; alone, nested in a fraction, in a product, under a Sum): all, in both tiers",
         "orderings": "depth<=2: all permutations of the child/parent names; depth 3: alphabetical and reversed; always also the default (ordering=None) and one ordering with two extra variables",
         "distributions": "every (population, intervention assignment) has its own free positive joint over binary variables (z3 Reals); all value assignments of the free variables in one query",
